@@ -10,10 +10,10 @@
 EXTENDS DiodeContract, Json, TLCExt
 
 TraceLog == ndJsonDeserialize("obs.ndjson")
-VARIABLES l, failed, bad
-tvars == <<cvars, l, failed, bad>>
+VARIABLES l, failed, bad, noalert     \* noalert: the writer has no alerter - drops are silent by construction, so the accounting clauses do not apply
+tvars == <<cvars, l, failed, bad, noalert>>
 
-TInit == CInit(1) /\ l = 1 /\ failed = FALSE /\ bad = <<>>
+TInit == CInit(1) /\ l = 1 /\ failed = FALSE /\ bad = <<>> /\ noalert = FALSE
 
 Guard(e) ==
   CASE e.a = "WStart"     -> WStartG(e.m)
@@ -21,10 +21,10 @@ Guard(e) ==
     [] e.a = "DStart"     -> DStartG(e.m)
     [] e.a = "DEnd"       -> DEndG(e.stable)
     [] e.a = "Collision"  -> CollisionG
-    [] e.a = "Alert"      -> AlertG(e.n)
+    [] e.a = "Alert"      -> AlertG(e.n) /\ ~e.async     \* reported by the consumer itself, before it goes on: Close's accounting (and the Fatal path) rely on it
     [] e.a = "CloseStart" -> CloseStartG
-    [] e.a = "CloseRet"   -> CloseRetG(e.wclosed)
-    [] e.a = "Quiesce"    -> QuiesceG
+    [] e.a = "CloseRet"   -> IF noalert THEN e.wclosed ELSE CloseRetG(e.wclosed)
+    [] e.a = "Quiesce"    -> noalert \/ QuiesceG
     [] e.a = "Stuck"      -> StuckG
     [] e.a = "EndBlocked" -> EndBlockedG(e.total)
     [] e.a = "PBlocked"   -> PBlockedG
@@ -70,8 +70,9 @@ TNext ==
      THEN /\ ringSize' = e.N /\ started' = {} /\ pred' = <<>> /\ returned' = {} /\ inWrite' = 0
           /\ delivered' = <<>> /\ alerts' = 0 /\ collisions' = 0 /\ outstandingMax' = 0
           /\ closing' = FALSE /\ closed' = FALSE
-          /\ failed' = FALSE /\ UNCHANGED bad
-     ELSE IF failed THEN UNCHANGED <<cvars, failed, bad>>
+          /\ failed' = FALSE /\ noalert' = e.noalert /\ UNCHANGED bad
+     ELSE UNCHANGED noalert /\
+     IF failed THEN UNCHANGED <<cvars, failed, bad>>
      ELSE IF Guard(e) THEN Effect(e) /\ UNCHANGED <<failed, bad>>
      ELSE failed' = TRUE /\ bad' = Append(bad, <<l, Sig(e)>>) /\ UNCHANGED cvars
 
